@@ -174,6 +174,11 @@ def run_case(rng, tier, case):
             with env.quiet():
                 kw_ = {'skip_nodes': skip} if skip else {}
                 c_b = r.built.portfolio.setup_optim_problem(pr_b, r.built.timegrid, costs_only=True, **kw_)
+                with attach.paused():
+                    c_full_b = np.asarray(r.built.portfolio.setup_optim_problem(pr_b, r.built.timegrid, **kw_).c, float)
+                # (the scenario's cost vector is the cost vector of the scenario's problem: otherwise prices and value below belong to another problem)
+                case.check('price.scenario_cost_vector_is_problem_cost_vector', np.asarray(c_b).shape == c_full_b.shape and bool(np.allclose(np.asarray(c_b, float), c_full_b, rtol=1e-12, atol=0.)),
+                           worst=float(np.max(np.abs(np.asarray(c_b, float) - c_full_b))) if np.asarray(c_b).shape == c_full_b.shape and len(c_full_b) else None)
                 r.op.c = np.asarray(c_b, float)
                 res_b = r.op.optimize()
                 out_b = None if isinstance(res_b, str) else eio.extract_output(r.built.portfolio, r.op, res_b, pr_b)
